@@ -309,7 +309,12 @@ pub fn enforce_limbs_agg<E: FieldElement<BaseField = Felt>>(
     // Enforces that aggregation of the two upper 16-bits limbs is equal to the first stack element
     // in the next row.
     // For `U32ASSERT2` the upper limbs decompose the second element from the top.
-    result[1] = u32op_ex_div_assert2_sub * are_equal(frame.stack_item_next(0), limbs.v_hi())
+    // For `U32ADD` and `U32ADD3` the result's upper part is the single limb `h2`; `h3` is not part
+    // of the sum's decomposition and must not leak into the carry.
+    let u32add_add3 = op_flag.u32add() + op_flag.u32add3();
+    result[1] = (u32op_ex_div_assert2_sub - u32add_add3)
+        * are_equal(frame.stack_item_next(0), limbs.v_hi())
+        + u32add_add3 * are_equal(frame.stack_item_next(0), frame.user_op_helper(2))
         + op_flag.u32assert2() * are_equal(frame.stack_item_next(1), limbs.v_hi());
 
     2
